@@ -5,7 +5,7 @@
 (* (set of failed clauses) is printed as one JSON line when non-empty.     *)
 (* Acceptance = every line of the trace file was consumed.                 *)
 (***************************************************************************)
-EXTENDS JudgeTx, JudgeSat, JudgeGraph, JudgeLint, JudgeApi, JudgeComp, Json, IOUtils
+EXTENDS JudgeTx, JudgeSat, JudgeGraph, JudgeLint, JudgeApi, JudgeComp, JudgeFrame, Json, IOUtils
 
 Tr == ndJsonDeserialize(IOEnv.TRACE_FILE)
 
@@ -26,6 +26,8 @@ JudgeEvent(e) ==
     [] e.kind = "add_subcircuit" -> Judge_add_subcircuit(e)
     [] e.kind = "fill_blackbox" -> Judge_fill_blackbox(e)
     [] e.kind = "strip_blackboxes" -> Judge_strip_blackboxes(e)
+    [] e.kind = "frame" -> Judge_frame(e)
+    [] e.kind = "alias" -> Judge_alias(e)
     [] e.kind = "api_history"  -> Judge_api_history(e)
     [] OTHER -> {"MACHINERY:unknown_kind"}
 
